@@ -594,14 +594,4 @@ theorem walk_straight (wc : Ctx) (sc : QV.Spec.Sem.Ctx) (ic : ICtx) (hag : Agree
     intro s s' x h hl ho
     exact straight_binary wc sc ic hag tok op l r htok hlog ihl ihr s s' x h hl ho
 
-theorem run_expr_stmt (wc : Ctx) (e : Expr) (s : WState) :
-    (walkStmt wc none (.expr e)).run s =
-      match (walkRvalue wc e).run s with
-      | (some op, s1) => (some (), { s1 with b := visitExpressionStatement s1.b op })
-      | (none, s1) => (none, s1) := by
-  rw [walkStmt]
-  simp only [run_bind]
-  cases (walkRvalue wc e).run s with
-  | mk r s1 => cases r <;> rfl
-
 end QV.Proofs.SemStraight
